@@ -84,6 +84,48 @@ fn ki3_window_extend_adler() {
     core::mem::forget(window);
 }
 
+/// with the running check value fused into the copy (zlib: Adler-32 in `checksum`; gzip: CRC-32 in `crc_fold`): every byte of
+/// both slices is folded exactly once, in stream order, from the running value — also when a slice is at least as long as
+/// the window and is split into a part that is only folded and a part that is folded and kept.  The checksum kernels are the
+/// cheap order-sensitive model (C09 decides the real ones); the ring contents are checked as in `ki3_window_extend_ring`.
+#[kani::proof]
+#[kani::unwind(14)]
+#[kani::stub(core::fmt::write, stub_fmt_write)]
+#[kani::stub(core::panicking::panic_nounwind, stub_pn)]
+#[kani::stub(core::panicking::panic_nounwind_fmt, stub_pnf)]
+#[kani::stub(crate::crc32::braid::crc32_braid, stub_braid_model)]
+#[kani::stub(crate::adler32::adler32, super::ki7_inflate::stub_adler_model)]
+fn ki3_window_extend_checksum_order() {
+    const W: usize = 4;
+    let mut buf = [0u8; W + 64];
+    let mut window = unsafe { Window::from_raw_parts(buf.as_mut_ptr(), W + 64) };
+    let gz: bool = kani::any();
+    let ck0: u32 = kani::any();
+    let mut ck = ck0;
+    let mut fold = Crc32Fold::new_with_initial(ck0);
+    let a: [u8; 7] = kani::any();
+    let la: usize = kani::any();
+    kani::assume(la <= 7);
+    let b: [u8; 7] = kani::any();
+    let lb: usize = kani::any();
+    kani::assume(lb <= 7);
+    window.extend(&a[..la], gz as i32, true, &mut ck, &mut fold);
+    window.extend(&b[..lb], gz as i32, true, &mut ck, &mut fold);
+    ring_check::<W>(&window, &buf, &a, la, &b, lb);
+    core::mem::forget(window);
+    if gz {
+        assert!(ck == ck0);
+        let want = crate::crc32::crc32(crate::crc32::crc32(ck0, &a[..la]), &b[..lb]);
+        assert!(fold.finish() == want, "CRC-32 folded over both slices in stream order");
+    } else {
+        let want = crate::adler32::adler32(crate::adler32::adler32(ck0, &a[..la]), &b[..lb]);
+        assert!(ck == want, "Adler-32 folded over both slices in stream order");
+    }
+    kani::cover!(gz && la == 7, "gzip, slice longer than the window");
+    kani::cover!(!gz && lb == 6 && la == 3, "zlib, slice longer than the window after a partial fill");
+    kani::cover!(gz && la == 3 && lb == 3, "gzip, wrap");
+}
+
 /// `inflate::get_dictionary` unrolls the ring to exactly the last `have` bytes in stream order (C13)
 #[kani::proof]
 #[kani::unwind(14)]
